@@ -139,8 +139,9 @@ def c09b(ctx):
 
 def c09c(ctx):
     prog = ctx.prog
-    for name, cl_pat, ent_adt in (("WideColumnCache::get", r"^WideColumnCache::get::\{closure#0\}::\{closure#\d+\}::\{closure#0\}$", "tiny_lfu::Entry"),
-                                  ("CacheKeyOfSetMap::get_entry", r"^CacheKeyOfSetMap::get_entry::\{closure#0\}::\{closure#\d+\}::\{closure#0\}$", "tiny_lfu::Entry")):
+    # the fill closure may sit any number of closures deep inside the loader (single-flight work closure, a publish wrapper ...)
+    for name, cl_pat, ent_adt in (("WideColumnCache::get", r"^WideColumnCache::get::\{closure#0\}(::\{closure#\d+\})+$", "tiny_lfu::Entry"),
+                                  ("CacheKeyOfSetMap::get_entry", r"^CacheKeyOfSetMap::get_entry::\{closure#0\}(::\{closure#\d+\})+$", "tiny_lfu::Entry")):
         o = ctx.ob("C09.c", "%s/fill-only-when-vacant" % name, "K4", "a miss-fill never overwrites an entry that appeared while the store was read")
         cls = prog.find(cl_pat)
         cls = [c for c in cls if c.calls_to(r"tiny_lfu::VacantEntry::<.*>::insert$")]
@@ -507,6 +508,46 @@ def c09i(ctx):
                      "staged removes loses committed members")
 
 
+def c09k(ctx):
+    """K4.  The writer of a key-of-set entry appends its operation to the staging log and then patches the cached set - only if
+    one is cached ("we do not load from the DB if missing").  The cold loader samples the staging log, scans the store,
+    overlays the sample and publishes the set.  Nothing orders the two: an operation appended after the loader's sample and
+    looked for before the loader's publication is in neither the sample nor the store nor patched in, and a cache hit on
+    an in-memory set applies no overlay - every later read of the key misses the element (or keeps the removed one) until
+    the entry is evicted, also after the operation reached the store.  In the shape of the code the pair is ordered when
+    (1) the loader samples the log inside the single-flight it registered (so that a later append can find the flight) and
+    (2) the writer consults that single-flight between its append and its cache lookup."""
+    prog = ctx.prog
+    o = ctx.ob("C09.k", "key-of-set/cold-load-and-concurrent-write-are-ordered", "K2+K8",
+               "get_entry samples the staging log inside its single-flight closure and apply_op consults the single-flight between the append and the cache lookup")
+    ge = [b for b in prog.find(r"^CacheKeyOfSetMap::get_entry::\{closure#0\}$")]
+    ao = [b for b in prog.find(r"^CacheKeyOfSetMap::apply_op$")]
+    if len(ge) != 1 or len(ao) != 1:
+        ctx.fail(o, "(program)", "anchor missing: CacheKeyOfSetMap::get_entry / apply_op (%d / %d)" % (len(ge), len(ao)))
+        return
+    g, a = ctx.touch(ge[0]), ctx.touch(ao[0])
+    wow = g.calls_to(r"single_flight::SingleFlight::<K>::wait_or_work$")
+    app = a.calls_to(r"ConcurrentLog::<V>::apply_message$")
+    look = a.calls_to(r"tiny_lfu::TinyLFU::<K, V, L>::get$")
+    o.sites = len(wow) + len(app) + len(look)
+    if len(wow) != 1 or not app or len(look) != 1:
+        ctx.fail(o, Site(g, 0, 0), "anchor missing: wait_or_work in get_entry / apply_message + cache lookup in apply_op (%d / %d / %d)" % (len(wow), len(app), len(look)))
+        return
+    # (1) the loader's sample is taken by the work closure
+    work = None
+    for x in df.origins_of_operand(g, wow[0].node["args"][2] if len(wow[0].node["args"]) > 2 else wow[0].node["args"][-1]):
+        if x.kind == "agg" and x.site.node["rv"].get("ak") == "closure":
+            work = prog.bodies.get(x.site.node["rv"].get("def"))
+    inside = bool(work is not None and ctx.touch(work).calls_to(r"CacheKeyOfSetMap::<K, C, Db>::get_staging_snapshot$"))
+    # (2) the writer looks at the single-flight after the append and before the lookup
+    sf = [s_ for s_ in a.calls_to(r"single_flight::SingleFlight::<K>::[a-z_]+$") if any(a.site_dominates(x, s_) for x in app) and a.site_dominates(s_, look[0])]
+    if not inside or not sf:
+        ctx.fail(o, look[0], "CacheKeyOfSetMap: %s%s%s - an operation issued while the key's set is being loaded can be lost from the cached set for as long as it stays "
+                 "cached (the loader's sample predates it, the writer finds nothing to patch)" % (
+                     "" if inside else "get_entry samples the staging log before it registers its single-flight", "" if inside or sf else "; ",
+                     "" if sf else "apply_op goes from the log append straight to the cache lookup without consulting the key's single-flight"))
+
+
 def c09g_staging(ctx):
     prog = ctx.prog
     # ---- a staging snapshot first applies the deferred messages
@@ -584,6 +625,7 @@ def run(ctx):
     ctx.run_clause("C09.g", c09g_order)
     ctx.run_clause("C09.h", c09h)
     ctx.run_clause("C09.i", c09i)
+    ctx.run_clause("C09.k", c09k)
     # un-pin notifications release cached entries for eviction: they may only follow the commit of the data they cover, which
     # is decided in the committer (C10.a: apply the expected epoch, consume before listing for notification), here as C09.j
     from . import C10
